@@ -7,7 +7,10 @@ import (
 	abcitypes "github.com/cometbft/cometbft/abci/types"
 	cmttypes "github.com/cometbft/cometbft/types"
 
+	"github.com/oasisprotocol/oasis-core/go/common/cbor"
 	"github.com/oasisprotocol/oasis-core/go/common/crypto/hash"
+	vaultState "github.com/oasisprotocol/oasis-core/go/consensus/cometbft/apps/vault/state"
+	vault "github.com/oasisprotocol/oasis-core/go/vault/api"
 	stakingState "github.com/oasisprotocol/oasis-core/go/consensus/cometbft/apps/staking/state"
 	staking "github.com/oasisprotocol/oasis-core/go/staking/api"
 	"github.com/oasisprotocol/oasis-core/go/storage/mkvs"
@@ -121,7 +124,26 @@ func (o *c09Oracle) AfterTx(s *Sim, r *Replica, idx int, raw []byte, st mkvs.Key
 	o.effected[h] = s.Height + 1
 	o.effects++
 	s.St.Inc("probe.c09.effects")
+	// An authorisation is a signature over (vault, nonce, action): it may only count for exactly
+	// the action it names. A successful vault.AuthorizeAction for a vault nonce that already has a
+	// pending action must therefore carry that very action.
+	if tx.Method == vault.MethodAuthorizeAction && res.Code == 0 {
+		var body vault.AuthorizeAction
+		if err := cbor.Unmarshal(tx.Body, &body); err == nil {
+			pa, perr := vaultState.NewImmutableState(storeTree{o.before}).PendingAction(s.Ctx, body.Vault, body.Nonce)
+			switch {
+			case perr != nil || pa == nil:
+				s.St.Inc("probe.c09.vault_action_submitted")
+			case pa.Action.Equal(&body.Action):
+				s.St.Inc("probe.c09.vault_action_cosigned")
+			default:
+				o.viol = c09Viol("authorization-counted-for-another-action", fmt.Sprintf("%s: the signed authorisation names action %s for nonce %d of vault %s, but that nonce already had the pending action %s; the transaction succeeded, i.e. the signature was counted for an action its signer did not sign", what, vaultActionName(&body.Action), body.Nonce, body.Vault, vaultActionName(&pa.Action)))
+			}
+		}
+	}
 }
+
+func vaultActionName(a *vault.Action) string { return fmt.Sprintf("%x", cbor.Marshal(a)) }
 
 func (o *c09Oracle) AfterBlock(*Sim, int64, *cmttypes.Block, []*BuiltTx, *BlockResult) *core.Violation {
 	return o.viol
